@@ -42,6 +42,9 @@ type c07case struct {
 	WriteDelay  int    `json:"write_delay_mode"`
 	SlowDrain   bool   `json:"slow_error_consumer"`
 	Chain       int    `json:"chain"` // 0 bare, 1 +arp cache stage, 2 +exclusion filter, 3 both
+	// with the arp cache stage: no gateway MAC, the cache knows every CacheEvery-th target only - the others
+	// fail at that stage (one error each, no frame); cached targets are addressed to their own entry
+	CacheEvery int `json:"no_gateway_cache_every,omitempty"`
 	Seed        uint64 `json:"seed"`
 }
 
@@ -80,8 +83,24 @@ func c07run(run *vlab.Run, c c07case) (obs c07obs) {
 	if c.Chain&2 != 0 {
 		reqgen = scan.NewFilterIPRequestGenerator(reqgen, cidranger.NewPCTrieRanger())
 	}
+	stageFails := map[uint32]bool{}
+	ownMAC := map[uint32]net.HardwareAddr{}
 	if c.Chain&1 != 0 {
-		reqgen = arp.NewCacheRequestGenerator(reqgen, net.HardwareAddr{2, 0, 0, 0, 0, 1}, arp.NewCache())
+		cache := arp.NewCache()
+		gw := net.HardwareAddr{2, 0, 0, 0, 0, 1}
+		if c.CacheEvery > 0 {
+			gw = nil
+			for i := 1; i <= c.N; i++ {
+				id := gen.base + uint32(i)
+				if i%c.CacheEvery == 0 {
+					ownMAC[id] = net.HardwareAddr{2, 0x55, byte(id >> 24), byte(id >> 16), byte(id >> 8), byte(id)}
+					cache.Put(net.IPv4(byte(id>>24), byte(id>>16), byte(id>>8), byte(id)).To4(), ownMAC[id])
+				} else {
+					stageFails[id] = true
+				}
+			}
+		}
+		reqgen = arp.NewCacheRequestGenerator(reqgen, gw, cache)
 	}
 	inner, link := rigFiller(c.Filler, c.Seed)
 	wrap := newWrapFiller(inner, c.Seed, c.FillFail, c.FillDelay, clock)
@@ -128,11 +147,14 @@ func c07run(run *vlab.Run, c c07case) (obs c07obs) {
 	// ---- expected sets
 	expBuilt := map[uint32]bool{}
 	expErrs := map[error]string{}
+	stageErrs := 0
 	gen.mu.Lock()
 	for i := 1; i <= c.N; i++ {
 		id := gen.base + uint32(i)
 		if e, ok := gen.reqErrs[id]; ok {
 			expErrs[e] = "request"
+		} else if stageFails[id] {
+			stageErrs++ // one error of the stage's own making, no frame
 		} else {
 			expBuilt[id] = true
 		}
@@ -178,6 +200,9 @@ func c07run(run *vlab.Run, c c07case) (obs c07obs) {
 			run.Violation("frame-extra", fmt.Sprintf("a frame for %s reached the wire although no frame was built for an error-free request with that id: %+v", oracle.IPString(oracle.U32ToIP(ev.id)), c), map[string]interface{}{"case": c, "frame": fmt.Sprintf("%x", ev.data)})
 			continue
 		}
+		if m, ok := ownMAC[ev.id]; ok && link == oracle.LinkEthernet && len(ev.data) >= 6 && string(ev.data[:6]) != string(m) {
+			run.Violation("frame-foreign-mac", fmt.Sprintf("frame for %s is addressed to %x, its own cache entry is %v: %+v", oracle.IPString(oracle.U32ToIP(ev.id)), ev.data[:6], m, c), c)
+		}
 		if string(b) != string(ev.data) {
 			run.Violation("frame-altered", fmt.Sprintf("frame for %s differs between build and wire (%d vs %d bytes): %+v", oracle.IPString(oracle.U32ToIP(ev.id)), len(b), len(ev.data), c), map[string]interface{}{"case": c, "built": fmt.Sprintf("%x", b), "wire": fmt.Sprintf("%x", ev.data)})
 		}
@@ -221,8 +246,11 @@ func c07run(run *vlab.Run, c c07case) (obs c07obs) {
 			run.Violation("error-duplicated:write", fmt.Sprintf("%q reported %d times on the error stream: %+v", e.Error(), n, c), c)
 		}
 	}
-	missing := 0
-	missKind := ""
+	missing := stageErrs // errors made by a stage have no identity the monitor knows: counted
+	missKind := "stage"
+	if stageErrs > 0 {
+		run.Count("requests_failing_at_the_cache_stage", int64(stageErrs))
+	}
 	for e, kind := range expErrs {
 		switch n := gotN[e]; {
 		case n == 0:
@@ -310,6 +338,9 @@ func c07cases(run *vlab.Run) []c07case {
 		}
 		if c.Filler == "arp" {
 			c.Chain &^= 1
+		}
+		if c.Chain&1 != 0 && rng.Intn(3) == 0 {
+			c.CacheEvery = 1 + rng.Intn(4)
 		}
 		cases = append(cases, c)
 	}
